@@ -2,6 +2,7 @@ import Hive.Proofs.KVConcMore
 import Hive.Proofs.KVConcHist
 import Hive.Proofs.KVConcClosed
 import Hive.Proofs.KVLinWiden
+import Hive.Proofs.KVAsm
 import Hive.Proofs.KVLin
 import Hive.Gen.C05_Skel
 import Hive.Gen.C05_Src
@@ -468,6 +469,77 @@ theorem C05_skeleton_map_iterate :
       ["rlock s", "for{", "if{", "}if", "}for", "runlock s", "for{", "}for", "for{", "if{", "break", "}if", "}for"] := by
   decide
 
+/-! ### `compile` is what the assembler makes of the regenerated skeletons (`Hive/Model/KVAsm.lean`)
+
+The obligations above pin the skeletons as strings; the theorems below close the remaining gap "`compile` was written
+against them": an interpreter of the token language (`Asm.assemble`: flag load + early return ↦ `check`, lock tokens ↦ lock
+instructions on the lock identity of the receiver expression, `defer`s run in reverse at the final `return`, a helper that is
+- or forwards to - a map primitive consisting of ONE critical section ↦ `lock map · eff a · unlock map`, error-handling `if`s
+without synchronisation skipped, a `for` loop ↦ its body once per access of a list) turns the regenerated skeleton of every
+method into exactly `compile` of the corresponding call.  Stage 1 (`Asm.template`, independent of the accesses) is evaluated
+by the kernel on the regenerated token lists; stage 2 (`Asm.instT`) is structural. -/
+open Asm in
+/-- the seven map primitives, by the name the view methods call them -/
+def asmPrims : List (String × List String) :=
+  [("get", skel_syncedKVMap_get), ("has", skel_syncedKVMap_has), ("set", skel_syncedKVMap_set),
+   ("delete", skel_syncedKVMap_delete), ("deletePrefix", skel_syncedKVMap_deletePrefix),
+   ("iterate", skel_syncedKVMap_iterate), ("iterateKeys", skel_syncedKVMap_iterateKeys)]
+
+/-- a method of view object `v` (receiver `s`): `s` is the view's lock, the flag is `s.closed`; `set` / `delete` are the view's
+lower-case wrappers, which forward to the primitives -/
+def asmViewEnv (v : Nat) : Asm.Env :=
+  { locks := [("s", .view v)], flag := "s",
+    helpers := [("set", skel_mapDB_set), ("delete", skel_mapDB_delete)] ++ asmPrims, prims := asmPrims, ignored := [] }
+
+/-- `Commit` of batch object `b` of view `v` (receiver `b`): `b` is the batch mutex, `b.kvStore` the view's lock -/
+def asmCommitEnv (b v : Nat) : Asm.Env :=
+  { locks := [("b", .batch b), ("b.kvStore", .view v)], flag := "b",
+    helpers := [("set", skel_mapDB_set), ("delete", skel_mapDB_delete)], prims := asmPrims, ignored := [] }
+
+/-- batch `Set` / `Delete` / `Cancel`: the only helper token is Go's builtin `delete` on the batch's private maps -/
+def asmBatchEnv (b : Nat) : Asm.Env :=
+  { locks := [("b", .batch b)], flag := "b", helpers := [("delete", [])], prims := [], ignored := ["delete"] }
+
+/-- **Every single-access call, `Close`, the flag-only calls and the batch-local calls**: assembling the regenerated skeleton
+of the method (with the access the call makes) gives `compile` of the call — for every view, realm, key, value, prefix,
+direction.  (The flag-only calls get the ghost point `nop` appended, which stands for no code.)  A change of a method's or a
+primitive's lock structure changes what the assembler produces and breaks this theorem even if someone "repairs" the pinned
+strings of `C05_skeleton_*`. -/
+theorem C05_compile_is_assembled (v b : Nat) (r k x p : Bytes) (d : Dir) (stop : Nat) :
+    Asm.assemble (asmViewEnv v) skel_mapDB_Get [[.get (r ++ k)]] = some (compile (.get v r k)) ∧
+    Asm.assemble (asmViewEnv v) skel_mapDB_Has [[.has (r ++ k)]] = some (compile (.has v r k)) ∧
+    Asm.assemble (asmViewEnv v) skel_mapDB_Set [[.set (r ++ k) x]] = some (compile (.set v r k x)) ∧
+    Asm.assemble (asmViewEnv v) skel_mapDB_Delete [[.del (r ++ k)]] = some (compile (.del v r k)) ∧
+    Asm.assemble (asmViewEnv v) skel_mapDB_DeletePrefix [[.delp (r ++ p)]] = some (compile (.delp v r p)) ∧
+    Asm.assemble (asmViewEnv v) skel_mapDB_Clear [[.delp r]] = some (compile (.clear v r)) ∧
+    Asm.assemble (asmViewEnv v) skel_mapDB_Iterate [[.iter (r ++ p) r.length d stop]] = some (compile (.iter r p d stop)) ∧
+    Asm.assemble (asmViewEnv v) skel_mapDB_IterateKeys [[.iterk (r ++ p) r.length d stop]] = some (compile (.iterk r p d stop)) ∧
+    Asm.assemble (asmViewEnv v) skel_mapDB_Close [] = some (compile .close) ∧
+    (Asm.assemble (asmViewEnv v) skel_mapDB_WithRealm []).map (· ++ [.eff .nop]) = some (compile (.withRealm r)) ∧
+    (Asm.assemble (asmViewEnv v) skel_mapDB_Batched []).map (· ++ [.eff .nop]) = some (compile .batched) ∧
+    (Asm.assemble (asmViewEnv v) skel_mapDB_Flush []).map (· ++ [.eff .nop]) = some (compile .flush) ∧
+    Asm.assemble (asmBatchEnv b) skel_batchedMutations_Set [] = some (compile (.batchOp b)) ∧
+    Asm.assemble (asmBatchEnv b) skel_batchedMutations_Delete [] = some (compile (.batchOp b)) ∧
+    Asm.assemble (asmBatchEnv b) skel_batchedMutations_Cancel [] = some (compile (.batchOp b)) :=
+  ⟨rfl, rfl, rfl, rfl, rfl, rfl, rfl, rfl, rfl, rfl, rfl, rfl, rfl, rfl, rfl⟩
+
+/-- **`Commit`, for every batch**: the template of the regenerated skeleton is "flag load, batch lock, view lock, one loop
+of write-mode critical sections (the batch's sets: helper `set`), a second one (its deletes: helper `delete`), then the two
+deferred unlocks in reverse order of their `defer`s"; instantiated with the accesses of the batch's sets and of its deletes
+it is `compile` of the commit — for all write lists. -/
+theorem C05_compile_is_assembled_commit (b v : Nat) (r : Bytes) (sets dels : List Write) :
+    Asm.template (asmCommitEnv b v) skel_batchedMutations_Commit =
+      some [.s (.i .check), .s (.i (.lock (.batch b))), .s (.i (.lock (.view v))), .loop [.prim true], .loop [.prim true],
+        .s (.i (.unlock (.batch b))), .s (.i (.unlock (.view v)))] ∧
+    Asm.assemble (asmCommitEnv b v) skel_batchedMutations_Commit [sets.map (writeOp r), dels.map (writeOp r)] =
+      some (compile (.commit b v r (sets ++ dels))) := by
+  have ht : Asm.template (asmCommitEnv b v) skel_batchedMutations_Commit =
+      some [.s (.i .check), .s (.i (.lock (.batch b))), .s (.i (.lock (.view v))), .loop [.prim true], .loop [.prim true],
+        .s (.i (.unlock (.batch b))), .s (.i (.unlock (.view v)))] := rfl
+  refine ⟨ht, ?_⟩
+  simp only [Asm.assemble, ht, Option.bind_some, Asm.instT, Option.map_some, Asm.loop_writes, compile,
+    Asm.commitWrites_append, List.append_assoc, List.cons_append, List.nil_append, List.append_nil]
+
 /-- The flag-only calls: one `closed.Load()`, no lock operation (what `flagCode` mirrors); `WithExtendedRealm` is
 `WithRealm` on the concatenated realm. -/
 theorem C05_skeleton_flag_calls :
@@ -663,6 +735,61 @@ theorem C05_skeleton_debug :
       "accessCallbackCommandsFilter Command"] ∧
     Debug.skel_type_batchedMutations = ["struct", "underlying kvstore.BatchedMutations", "accessCallback AccessCallback",
       "accessCallbackCommandsFilter Command"] := by decide
+
+/-- the method names of the wrapped interfaces (`kvstore.KVStore`, `kvstore.BatchedMutations`) -/
+def asmStoreMethods : List String :=
+  ["WithRealm", "Realm", "Iterate", "IterateKeys", "Clear", "Get", "Set", "Has", "Delete", "DeletePrefix", "Flush", "Close",
+   "Batched", "Commit", "Cancel"]
+
+/-- **The wrapper calls of the model are what the assembler makes of the regenerated wrapper skeletons**
+(`Hive/Gen/C05_WrapSkel.lean`).  `Asm.wrapShape` reads a wrapper method as a sequence of: access callback (filter test +
+`if{ call X.accessCallback }if`), wrapped call `X.<field>.<M>` (with its early return on error), `flushAfterMutation`;
+`Asm.instW` turns the shape into the code blocks of the model calls the method makes, given the code of the wrapped call.
+* every mutator of flushkv has the shape `[wrapped M, flush]` and is ONE model call: the wrapped call's code `++ [load]` — i.e.
+  `compile` of `fset` / `fdel` / `fdelp` / `fclear` / `fcommit`;
+* every reporting method of debug has the shape `[callback, wrapped M]` and is TWO model calls: `callback` (no instruction), then
+  the wrapped call; through both wrappers (either order) `[callback, f-call]`;
+* every other method of either wrapper has the shape `[wrapped M]`: the wrapped call itself.
+A wrapper method that does anything else - a call after the wrapped one, a second flush, a callback after the call, a lock -
+has another shape or none, and this theorem breaks. -/
+theorem C05_compile_is_assembled_wrappers (v b : Nat) (r k x p : Bytes) (ws : List Write) :
+    let fS : Asm.WEnv := { recv := "s", inner := ["store"], methods := asmStoreMethods }
+    let fB : Asm.WEnv := { recv := "b", inner := ["batched"], methods := asmStoreMethods }
+    let dS : Asm.WEnv := { recv := "s", inner := ["underlying"], methods := asmStoreMethods }
+    let dB : Asm.WEnv := { recv := "b", inner := ["underlying"], methods := asmStoreMethods }
+    let blocks := fun (env : Asm.WEnv) (sk : List String) (base : List Instr) =>
+      (Asm.wrapShape env sk).map (fun sh => Asm.instW base sh [])
+    blocks fS Flush.skel_flushKVStore_Set (compile (.set v r k x)) = some [compile (.fset v r k x)] ∧
+    blocks fS Flush.skel_flushKVStore_Delete (compile (.del v r k)) = some [compile (.fdel v r k)] ∧
+    blocks fS Flush.skel_flushKVStore_DeletePrefix (compile (.delp v r p)) = some [compile (.fdelp v r p)] ∧
+    blocks fS Flush.skel_flushKVStore_Clear (compile (.clear v r)) = some [compile (.fclear v r)] ∧
+    blocks fB Flush.skel_batchedMutations_Commit (compile (.commit b v r ws)) = some [compile (.fcommit b v r ws)] ∧
+    [Flush.skel_flushKVStore_Get, Flush.skel_flushKVStore_Has, Flush.skel_flushKVStore_Iterate, Flush.skel_flushKVStore_IterateKeys,
+      Flush.skel_flushKVStore_Flush, Flush.skel_flushKVStore_Close, Flush.skel_flushKVStore_Realm, Flush.skel_flushKVStore_WithRealm,
+      Flush.skel_flushKVStore_Batched].map (Asm.wrapShape fS) =
+      ["Get", "Has", "Iterate", "IterateKeys", "Flush", "Close", "Realm", "WithRealm", "Batched"].map (fun m => some [.wrapped m]) ∧
+    [Flush.skel_batchedMutations_Set, Flush.skel_batchedMutations_Delete, Flush.skel_batchedMutations_Cancel].map (Asm.wrapShape fB) =
+      ["Set", "Delete", "Cancel"].map (fun m => some [.wrapped m]) ∧
+    blocks dS Debug.skel_debugStore_Get (compile (.get v r k)) = some [compile .callback, compile (.get v r k)] ∧
+    blocks dS Debug.skel_debugStore_Set (compile (.fset v r k x)) = some [compile .callback, compile (.fset v r k x)] ∧
+    [Debug.skel_debugStore_Get, Debug.skel_debugStore_Has, Debug.skel_debugStore_Set, Debug.skel_debugStore_Delete,
+      Debug.skel_debugStore_DeletePrefix, Debug.skel_debugStore_Clear, Debug.skel_debugStore_Iterate,
+      Debug.skel_debugStore_IterateKeys].map (Asm.wrapShape dS) =
+      ["Get", "Has", "Set", "Delete", "DeletePrefix", "Clear", "Iterate", "IterateKeys"].map
+        (fun m => some [.callback, .wrapped m]) ∧
+    [Debug.skel_batchedMutations_Set, Debug.skel_batchedMutations_Delete].map (Asm.wrapShape dB) =
+      ["Set", "Delete"].map (fun m => some [.callback, .wrapped m]) ∧
+    [Debug.skel_debugStore_Flush, Debug.skel_debugStore_Close, Debug.skel_debugStore_Realm, Debug.skel_debugStore_WithRealm,
+      Debug.skel_debugStore_Batched].map (Asm.wrapShape dS) =
+      ["Flush", "Close", "Realm", "WithRealm", "Batched"].map (fun m => some [.wrapped m]) ∧
+    [Debug.skel_batchedMutations_Cancel, Debug.skel_batchedMutations_Commit].map (Asm.wrapShape dB) =
+      ["Cancel", "Commit"].map (fun m => some [.wrapped m]) := by
+  refine ⟨rfl, rfl, rfl, rfl, ?_, by decide, by decide, rfl, rfl, by decide, by decide, by decide, by decide⟩
+  show (Asm.wrapShape _ Flush.skel_batchedMutations_Commit).map _ = _
+  have hs : Asm.wrapShape { recv := "b", inner := ["batched"], methods := asmStoreMethods } Flush.skel_batchedMutations_Commit =
+      some [.wrapped "Commit", .flush] := by decide
+  rw [hs]
+  simp [Asm.instW, compile, List.append_assoc]
 
 /-! ### the hypotheses are satisfiable: a concrete run -/
 
